@@ -1832,6 +1832,33 @@ func hashExprKind(c *hmapClassifier, e ast.Expr) string {
 				isKey = true
 			}
 			if isKey {
+				// a function of the module that is one expression of its parameter (intKeyHash(key)
+				// returning uint(key & MaxInt32)) reads as that expression, so that sites which call it
+				// and sites that write it out agree
+				var fid *ast.Ident
+				switch f := ast.Unparen(call.Fun).(type) {
+				case *ast.Ident:
+					fid = f
+				case *ast.SelectorExpr:
+					fid = f.Sel
+				}
+				if fid != nil {
+					if k := c.hashHelperKind(fid); k != "" {
+						return k
+					}
+					if fn, _ := c.info.Uses[fid].(*types.Func); fn != nil && c.p != nil {
+						if hfi := c.p.FuncOf(fn); hfi != nil && hfi.Decl.Body != nil && len(hfi.Decl.Body.List) == 1 {
+							if rs, ok := hfi.Decl.Body.List[0].(*ast.ReturnStmt); ok && len(rs.Results) == 1 {
+								hc := newHmapClassifier(hfi)
+								hc.p = c.p
+								if k := hashExprKind(hc, rs.Results[0]); strings.HasPrefix(k, "fn:") || strings.HasPrefix(k, "inline:") {
+									return k
+								}
+								return "hash()" // the collection's hash helper, written as a package function
+							}
+						}
+					}
+				}
 				return "fn:" + c.norm(call.Fun)
 			}
 		}
